@@ -439,7 +439,7 @@ func (w *World) afterStep(u *Upload, ev sim.Event) {
 			ok = true
 		case u.Block != nil && (u.Block.Popped || u.Block.Quarantined) && code == codes.Internal && strings.Contains(err.Error(), "released"):
 			ok = true
-		case w.deviceFaultsArmed() && (code == codes.Unknown || code == codes.Internal || code == codes.Unavailable):
+		case w.deviceFaultsArmed():
 			ok = true
 		case w.Cfg.Hierarchical && code == codes.Internal && strings.Contains(err.Error(), "Existing object disappeared while buffer was read"):
 			// Documented outcome of hierarchicalCASBlobAccess.Put when the
